@@ -1,7 +1,7 @@
 """C09 - the scan selects exactly the files the options describe."""
 import re
 from . import register
-from ..analysis import (backslice, comparisons, branch_of, dominated_region, closure_creation, forward_locals,
+from ..analysis import (slice_const_values, backslice, comparisons, branch_of, dominated_region, closure_creation, forward_locals,
                         truth_table, table_equals, switch_targets_bool, count_nots, FLIP, NEG, upvar_operand)
 from ..facts import const_int, op_local, op_const, const_val, place_fields
 
@@ -19,6 +19,7 @@ DOC = {
         'C09.R4': 'visited set consulted only under follow_links; hidden = file name starts with "."; .gitignore consulted unless no_ignore',
         'C09.R5': 'include/exclude path patterns are made absolute with abs_pattern(base_dir, _); name patterns are not',
         'C09.R6': 'visit_dir reads a directory iff level < depth && matches_dir && (!one_fs || same_fs) (reach table over these atoms)',
+        'C09.R13': 'ignore files as documented: IgnoreStack::push loads .gitignore and .fdignore of a directory independently of each other (neither is looked at only when the other is absent); IgnoreStack::matches lets the deepest ignore file that says anything decide (reverse iteration, a whitelist `!` match ends the search with "not ignored"), instead of "ignored by any level"',
         'C09.R12': 'input paths read from the standard input (--stdin) are taken as bytes, like paths given as arguments (OsString): no UTF-8-only reader (lines / read_line / read_to_string / String::from_utf8 + unwrap) between stdin and Path',
         'C09.R11': 'marking an entry as visited (follow_links) does not cut off routes that would get further: the mark is made after the route-dependent .gitignore test, and either it records the nesting level (a directory reached again at a smaller level is read again) or it is made only after the --depth test passed',
         'C09.R10': 'a --regex pattern is never joined with anchors (^...$) or with another pattern (base directory + relative pattern) without a grouping step for a top-level alternation: `^a|b$` means (^a)|(b$), which selects files that are not matched fully and makes the fixed prefix used for pruning the prefix of the first alternative only',
@@ -46,6 +47,7 @@ def run(ctx):
     r10(ctx)
     r11(ctx)
     r12(ctx)
+    r13(ctx)
     from .common import run_mandatory
     run_mandatory(ctx, 'C09')
 
@@ -164,6 +166,39 @@ def _groups(lib, body, operand):
             if cb is not None and any('(?:' in v for v in _all_consts(cb)):
                 return True
     return False
+
+
+def r13(ctx):
+    rule = 'C09.R13'
+    lib = ctx.lib
+    pu = ctx.need_body(rule, 'walk::IgnoreStack::push')
+    ma = ctx.need_body(rule, 'walk::IgnoreStack::matches')
+    if pu is None or ma is None:
+        return
+    # (a) both names reach a load call; no load of one name is control-dependent on the absence of the other
+    consts = _all_consts(pu)
+    names = {n for n in ('.gitignore', '.fdignore') if any(n in c for c in consts)}
+    loads = pu.calls(r'GitignoreBuilder::add$|gitignore::Gitignore::new$')
+    per_name = {}
+    for c in loads:
+        vals = slice_const_values(lib, backslice(pu, [c.args[-1]]))
+        per_name[c.bb] = {n for n in ('.gitignore', '.fdignore') if any(n in (v or '') for v in vals)}
+    covered = set().union(*per_name.values()) if per_name else set()
+    # both files can be loaded for one directory: two load sites, or one inside a loop over the names
+    repeated = len(loads) >= 2 or any(any(c.bb in pu.reachable(x) for x in pu.succs(c.bb)) for c in loads)
+    both = bool(loads) and covered == {'.gitignore', '.fdignore'} and names == {'.gitignore', '.fdignore'} and repeated
+    ctx.check(both, rule, pu.path + '|both-files', (loads[0].where() if loads else pu.where()), 'both .gitignore and .fdignore of a directory are loaded (one load per name)',
+              'at most one ignore file is loaded per directory (%d load site(s), not in a loop over the names): .fdignore is looked at only when there is no .gitignore next to it, '
+              'its rules are silently dropped otherwise' % len(loads))
+    # (b) precedence: deepest first, whitelist recognised
+    rev = ma.calls(r'Iterator::rev$|::rev$')
+    wl = ma.calls(r'Match(::)?<.*>::is_whitelist$|Match::<T>::is_whitelist$')
+    bodies = [ma] + [lib.body(c) for c in lib.closures_of(ma.path)]
+    wl = [c for x in bodies for c in x.calls(r'is_whitelist$')]
+    anyc = [c for x in bodies for c in x.calls(r'Iterator>::any$|Iterator::any$')]
+    ctx.check(bool(rev) and bool(wl) and not anyc, rule, ma.path + '|deepest-wins', ma.where(), 'the stack is searched from the deepest ignore file, a whitelist match means "not ignored"',
+              'IgnoreStack::matches is "ignored by any level": a `!pattern` in the .gitignore of a sub-directory cannot re-include what a parent .gitignore ignores (git and fd semantics), '
+              'such files are missing from the scan')
 
 
 def r12(ctx):
@@ -574,6 +609,16 @@ def r4(ctx):
                 n = count_nots(b, backslice(b, [t['op']]))
                 okg = b.dominates(ft if n % 2 == 0 else tt, c.bb)
         ctx.check(okg, rule, P + '|hidden-flag', c.where(), 'the test applies unless --hidden', 'the hidden test is not controlled by !self.hidden')
+        # ... and not to the roots: a path the user named explicitly (level 0) is scanned even if its own name starts with a dot
+        okr = False
+        for cmp in comparisons(b):
+            names_ = backslice(b, [cmp.a]).param_names(b) | backslice(b, [cmp.b]).param_names(b)
+            if 'level' in names_:
+                br = branch_of(b, cmp)
+                if br and (b.dominates(br[1], c.bb) != b.dominates(br[2], c.bb)):
+                    okr = True
+        ctx.check(okr, rule, P + '|hidden-not-roots', c.where(), 'the hidden test is applied below the roots only (guarded by the nesting level)',
+                  'the hidden test is applied to the roots as well: `fclones group .config`, or `fclones group .` inside a directory whose name starts with a dot, scans nothing and says nothing')
     gi = [c for c in b.calls(r'IgnoreStack::matches$')]
     if ctx.floor(rule, 'ignore-stack test in visit_entry', len(gi), 1, b.where()):
         c = gi[0]
@@ -615,6 +660,30 @@ def r5(ctx):
             asl0, asl1 = backslice(ap, [add[0].args[0]]), backslice(ap, [add[0].args[1]])
             good = good and lit[0] in asl0.calls and 2 in asl1.params
         ctx.check(bool(good), rule, ap.path, ap.where(), 'relative pattern -> literal(base_dir + "/") + pattern; absolute patterns unchanged', 'abs_pattern does not prefix relative patterns with the literal base directory')
+        if add:
+            # the relative pattern loses a leading `./` before it is anchored
+            rsl = backslice(ap, [add[0].args[1]])
+            strips = [c for c in rsl.calls if c.matches(r'Pattern::strip_literal_prefix$|str::<impl str>::(strip_prefix|trim_start_matches)$')]
+            dot = any('"."' in (v or '') or '"./"' in (v or '') for c in strips for v in slice_const_values(lib, backslice(ap, c.args[1:])))
+            ctx.check(bool(strips) and dot, rule, ap.path + '|current-dir-prefix', add[0].where(), 'a leading `./` of a relative pattern is removed before the base directory is prepended',
+                      'a relative pattern is appended to the base directory as it is: `--path "./a/*"` becomes `<cwd>/./a/*`, which matches no scanned path (they have no `.` components), '
+                      'and `--exclude "./a/*"` excludes nothing')
+        ib = lib.body(sel + 'is_absolute')
+        if ib is not None:
+            # absoluteness is decided on the first literal of the pattern, also when the pattern starts with a group
+            peeks = [c for c in ib.calls(r'str::<impl str>::(strip_prefix|trim_start_matches)$') if any("'('" in (v or '') or '"("' in (v or '') or '"(?:"' in (v or '') for v in slice_const_values(lib, backslice(ib, c.args[1:])))]
+            ctx.check(bool(peeks), rule, ib.path + '|looks-into-groups', ib.where(), 'is_absolute skips the opening of leading groups before testing for the root',
+                      'is_absolute tests only the first characters of the translated pattern: a glob that starts with an alternation of absolute paths (`{/x/a,/x/b}/**` -> `(/x/a|/x/b)/.*`) counts as '
+                      'relative, gets the working directory prepended and matches nothing')
+        if lit:
+            # the literal is made of exactly the text the paths are matched as (to_string_lossy): no character substitution on the way
+            lsl = backslice(ap, [lit[0].args[0]])
+            subst = [c for c in lsl.calls if c.matches(r'str::<impl str>::(replace|replacen|to_\\w*case|trim\\w*)$')]
+            ctx.check(lsl.has_call(r'to_string_lossy$') and not subst, rule, ap.path + '|base-text-unchanged', (subst[0].where() if subst else lit[0].where()),
+                      'the base directory becomes a literal pattern as the same lossy text that paths are matched as',
+                      'the text of the base directory is edited (%s) before it is escaped by Pattern::literal: the substitute is escaped too and then matches only itself, not the character it '
+                      'stands for in the paths (U+FFFD -> `?` -> `\\\\?`): under a working directory whose name is not valid UTF-8 every relative --path / --exclude pattern matches nothing' % (
+                          subst[0].path.rsplit('::', 1)[-1] if subst else 'no to_string_lossy'))
     gc = lib.body("group::GroupCtx::<'a>::new") or lib.body('group::GroupCtx::new')
     for b in lib.find(r'^group::GroupCtx::<.*>::new$|^group::GroupCtx.*::path_selector$|^config::GroupConfig::path_selector$'):
         ctx.fn(b)
